@@ -226,11 +226,13 @@ Proof.
   rewrite map_map in *. destruct b; cbn [vbool VT VF]; rewrite IH; reflexivity.
 Qed.
 
-(* every well-shaped input: the model's verdicts satisfy the property predicate *)
-Theorem prop_C53_of_model : forall i, dec_C53 i <> None -> prop_C53 i (run_C53 i) = true.
+(* central theorem: well-formed = decodable and no dictionary can overflow (distinct keys <= both capacities) *)
+Definition wf_C53 (i : val) : bool := match dec_C53 i with Some x => no_evict x | None => false end.
+Theorem prop_C53_of_model : forall i, wf_C53 i = true -> kf_C53 i = 0 -> prop_C53 i (run_C53 i) = true.
 Proof.
-  intros i Hd. unfold prop_C53, run_C53. destruct (dec_C53 i) as [[c ops]|]; [|contradiction].
-  rewrite bools_of_vbool. rewrite (run_refines c ops empty_state (fun _ => k0)).
+  intros i Hwf _. unfold wf_C53 in Hwf. unfold prop_C53, run_C53. destruct (dec_C53 i) as [x|]; [|discriminate].
+  rewrite bools_of_vbool. unfold run_inp. rewrite Hwf.
+  rewrite (run_refines (in_cfg x) (in_ops x) empty_state (fun _ => k0)).
   - apply list_bool_eqb_refl.
   - intros k. split; [exact I|reflexivity].
 Qed.
@@ -243,3 +245,17 @@ Lemma C53_example_lemma :
   run_ops c empty_state [(1, 0); (2, 0); (1, 1); (1, 3); (2, 3); (1, 8); (1, 9); (1, 10)]
   = [false; false; false; true; false; true; false; false].
 Proof. vm_compute. reflexivity. Qed.
+
+Lemma C53_wf_example_lemma :
+  let i := VL [VZ 5; VZ 4; VZ 2; VZ 100; VZ 100;
+               VL [VL [VZ 1; VZ 0]; VL [VZ 2; VZ 0]; VL [VZ 1; VZ 2]; VL [VZ 1; VZ 4]; VL [VZ 2; VZ 4]; VL [VZ 1; VZ 8];
+                   VL [VZ 1; VZ 10]; VL [VZ 1; VZ 12]]] in
+  wf_C53 i = true /\ run_C53 i = VL [VZ 0; VZ 0; VZ 0; VZ 1; VZ 0; VZ 1; VZ 0; VZ 0].
+Proof. vm_compute. split; reflexivity. Qed.
+(* with one access slot, key 1 keeps evicting key 0's counter: nobody ever reaches threshold 1 *)
+Lemma C53_evict_example_lemma :
+  run_lru {| c_period := 5; c_stay := 4; c_threshold := 1 |} {| l_acc := []; l_pr := []; l_acap := 1; l_pcap := 100 |}
+          [(0, 0); (1, 0); (0, 0); (1, 0); (0, 0); (1, 0)] = [false; false; false; false; false; false]
+  /\ run_ops {| c_period := 5; c_stay := 4; c_threshold := 1 |} empty_state
+          [(0, 0); (1, 0); (0, 0); (1, 0); (0, 0); (1, 0)] = [false; false; true; true; true; true].
+Proof. vm_compute. split; reflexivity. Qed.
